@@ -220,12 +220,15 @@ func (c *coalescer) run() {
 	for {
 		select {
 		case <-c.done:
-			// Drain anything still buffered and exit. Submit refuses new
-			// enqueues once done is closed, so the channel is a bounded
-			// set at this point.
-			drainReady()
-			flush()
-			return
+			// Drain everything still buffered (the queue holds up to
+			// 4*maxBatch messages, so this can take several batches) and exit.
+			for {
+				drainReady()
+				if len(batch) == 0 {
+					return
+				}
+				flush()
+			}
 		case m := <-c.in:
 			batch = append(batch, m)
 			drainReady()
